@@ -108,7 +108,7 @@ func runC13(c *Ctx) {
 				for _, u := range users[name] {
 					for _, call := range find(cl, callTo(u)) {
 						users2 = append(users2, call)
-						k := ir.CallOf(call).Args[2]
+						k := ir.ValueAt(ir.CallOf(call).Args[2], call.Block())
 						kc, isCall := k.(*ssa.Call)
 						if !isCall || !callTo(bytesM)(kc) || kc.Call.Args[0] != buf {
 							okv = false
@@ -701,7 +701,7 @@ func (c *Ctx) banRecorded() {
 			switch {
 			case valIsCallTo(spec.op)(v):
 				n++
-			case !ir.IsNil(v) && knownNonNilError(v):
+			case !ir.IsNil(v) && (knownNonNilError(v) || nonNilAt(v, r.Block())):
 			default:
 				bad = append(bad, "return at "+c.at(r)+" can report success without "+spec.op.Name())
 			}
